@@ -4,15 +4,21 @@ import json, os
 V = '/verif'
 ids = [json.loads(l)['id'] for l in open(f'{V}/properties.jsonl')]
 TECH = "symbolic execution of the real functions from go/ssa (gosym, this repo) with cvc5 deciding every branch-feasibility and assertion query over all inputs within stated bounds; counterexamples replayed against the natively compiled code"
+FLOW_NOTE = "Bounds and assumptions are written to the evidence file on every run (coverage.bounds, assumptions). Trusted base: the world model (harness/world), the stdlib/third-party boundary models (engine intrinsics, harness/stubs), cvc5."
 CLAIMED = {
- "C04": ("model_checking", "One inductive step of the lock module's transition function (failure / correct password / success / manual lock+unlock) from an arbitrary stored (count, last attempt, locked-until) with symbolic LockAfter>=1, LockWindow, LockDuration and a symbolic non-decreasing clock, checked against a reference automaton; unsat = holds for every value in the bounds, so histories of any length are covered by induction over the stored state.", "4.4",
-         "Settings up to 100 years, count < 2^62, instants in years 1..9999; time.Time modelled as integer nanoseconds with the stdlib's saturating Sub; store = world.Store (copy semantics); replay in the interpreter with pinned inputs because lock.go reads time.Now() directly."),
- "C07": ("model_checking", "remember.GenerateToken followed by the decode/lookup of remember.Authenticate (through remember.Middleware and LoadClientStateMiddleware) for every PID byte string within the bound, including ';' and the OAuth2 PID shape: the cookie is accepted, looked up under exactly the (pid, hash) it was stored with, and the session is issued to that pid.", "4.7",
-         "sha512 and base64 are uninterpreted functions with decode(encode(x))=x; crypto/rand returns arbitrary bytes; PID length <= 6/16 bytes (quick/thorough)."),
- "C09": ("model_checking", "expire.Middleware on an arbitrary session (every key symbolic presence+value, symbolic RFC3339 stamp, symbolic ExpireAfter, both whitelist shapes, symbolic clock) and the Setup hook: expired => downstream sees nothing non-whitelisted and the response deletes it; fresh => unchanged and re-stamped; unstamped logged-in sessions get a stamp.", "4.9",
-         "RFC3339 format/parse modelled as an injective uninterpreted function on whole seconds with parse(format(x))=x; ExpireAfter in (0, 100y]; whitelist in {[], [app_w]}; replay in interpreter (clock)."),
- "C14": ("model_checking", "MakeOAuth2PID/ParseOAuth2PID for all provider/uid byte strings within the bound (provider free of ';'): round trip returns exactly the pair or an error, and distinct pairs give distinct PIDs.", "4.14",
-         "fmt.Sprintf(%s) and strings.Split modelled with SMT string operations; strings <= 6/12 bytes."),
+ "C01": ("model_checking", "Every registered route (and remember.Middleware) is run once from an arbitrary invariant state with an arbitrary request: the session's user identity changes only on the login routes and only with a credential that is valid by ground truth (ghost plaintexts), pending 2FA logins are parked only with a valid primary credential. One inductive step covers histories of any length over the two-account state shape.", "4.1", FLOW_NOTE),
+ "C02": ("model_checking", "Primary login routes never issue a session for an account with a second factor (totp/sms/both loaded); the validate routes complete only the pending account's login and only with a code valid for its own secret / a code texted to its own number (ghost) / an unused recovery code; a two-request entry shows a code obtained for another phone never completes a login.", "4.2", FLOW_NOTE),
+ "C03": ("model_checking", "All six login routes under both load orders of (confirm, lock): no session for an account locked throughout the request or unconfirmed; lock/confirm middlewares admit exactly the unlocked/confirmed session user. One known finding (OAuth2 callback of an unconfirmed account) is recorded and printed as KNOWN-FINDING.", "4.3", FLOW_NOTE),
+ "C04": ("model_checking", "One inductive step of the lock module's transition function (failure / correct password / success / manual lock+unlock) from an arbitrary stored (count, last attempt, locked-until) with symbolic LockAfter>=1, LockWindow, LockDuration and a symbolic non-decreasing clock, against a reference automaton.", "4.4", "Settings up to 100 years, count < 2^62; replay in the interpreter with pinned inputs because lock.go reads time.Now() directly."),
+ "C05": ("model_checking", "GET /confirm and POST /recover/end with arbitrary token strings (decoded bytes arbitrary, any length) from arbitrary stored token state: accepted iff the value decodes to exactly the issued 64 bytes of that account (and, recovery, in time); any other value leaves both accounts byte-identical; accepted tokens are spent; a re-issued recovery token supersedes the old one.", "4.5", FLOW_NOTE),
+ "C06": ("model_checking", "Successful POST /recover/end from any browser session (remember loaded or not, login-after-recovery on/off) and Authboss.UpdatePassword: new password verifies, old does not, stored value is a salted hash, recovery token spent, all and only that account's remember tokens revoked, cookie deleted.", "4.6", FLOW_NOTE),
+ "C07": ("model_checking", "Kernel: remember.GenerateToken + the decode/lookup of remember.Authenticate for every PID byte string within the bound (including ';' and OAuth2 PIDs). Flows: remember.Middleware from arbitrary cookie/session/table (rotation, half-auth mark, single use, bad cookie deleted), cookie issued iff asked, password reset revokes.", "4.7", FLOW_NOTE),
+ "C09": ("model_checking", "expire.Middleware on an arbitrary session (symbolic presence/value per key, symbolic stamp, ExpireAfter, whitelist shapes, clock) and the Setup hook.", "4.9", "RFC3339 format/parse modelled as an injective uninterpreted function on whole seconds; replay in interpreter (clock)."),
+ "C10": ("model_checking", "The registered logout handler under each LogoutMethod from an arbitrary session over every library key plus application keys: only whitelisted keys survive, remember cookie removed, the auth middleware then refuses; invalid method fails Init.", "4.10", FLOW_NOTE),
+ "C11": ("model_checking", "The real ClientStateResponseWriter between recording stores and a recording underlying writer, for every operation sequence up to k over 8 operations with symbolic operands (including zero-length writes) under 0-2 wrappers: exactly-once, ordered, store-separated delivery before the first underlying write; reads stable.", "4.11", "operation sequences enumerated, operands symbolic; k=3 quick / 4 thorough."),
+ "C12": ("model_checking", "OTP login, recovery-code login (TOTP and SMS routes, both user types), SMS code login: the accepted value is removed from storage / session, the request is then re-executed from the same browser state and must fail; rejected values consume nothing; /otp/add never exceeds five; TOTP replay guard.", "4.12", FLOW_NOTE),
+ "C13": ("model_checking", "Every route from any session: TOTP secret / SMS number / recovery codes of an account change only for the fully authenticated owner proving the factor (ground truth from ghosts and the totp_ok predicate); e-mail authorisation gates enrolment and is spent; two-request setup-then-confirm entry binds the enrolled number to the texted code; e-mail verify end grants only for the issued token.", "4.13", FLOW_NOTE),
+ "C14": ("model_checking", "PID codec kernel for all provider/uid strings within the bound, plus oauth2 Start/End from arbitrary sessions with arbitrary state/code/error parameters: login only with the session's own state and no provider error, matching callbacks spend state and params, mismatches touch neither store nor session, the session names the reported (provider, uid).", "4.14", FLOW_NOTE),
 }
 checks = []
 for pid, (lvl, text, ref, note) in sorted(CLAIMED.items()):
